@@ -34,6 +34,7 @@ import (
 	"strconv"
 	"strings"
 	"sync"
+	"sync/atomic"
 	"time"
 
 	"github.com/nextmv-io/nextroute"
@@ -147,9 +148,9 @@ func (o *scriptedOperator) Execute(ctx context.Context, info nextroute.SolveInfo
 	return nil
 }
 
-func (o *scriptedOperator) Probability() float64                      { return 1.0 }
-func (o *scriptedOperator) SetProbability(float64) error              { return nil }
-func (o *scriptedOperator) Parameters() nextroute.SolveParameters     { return nextroute.SolveParameters{} }
+func (o *scriptedOperator) Probability() float64                  { return 1.0 }
+func (o *scriptedOperator) SetProbability(float64) error          { return nil }
+func (o *scriptedOperator) Parameters() nextroute.SolveParameters { return nextroute.SolveParameters{} }
 
 func runSloop(b block) {
 	defer func() {
@@ -164,9 +165,13 @@ func runSloop(b block) {
 		return
 	}
 	start := 0
+	stall := false
 	op := &scriptedOperator{cur: -1}
 	for _, fs := range b.lines {
 		switch fs[0] {
+		case "stall":
+			// the consumer does not read before the solver has stopped making progress (done, or blocked on its full channel)
+			stall = true
 		case "start":
 			start, _ = strconv.Atoi(fs[1])
 		case "exec":
@@ -194,10 +199,23 @@ func runSloop(b block) {
 		fmt.Fprintf(out, "%s start error %v\n", b.id, err)
 		return
 	}
+	var progress atomic.Int64
+	solver.SolveEvents().Iterated.Register(func(nextroute.SolveInformation) { progress.Add(1) })
 	ch, err := solver.Solve(ctx, nextroute.SolveOptions{Iterations: len(op.execs), Duration: time.Minute}, startSol)
 	if err != nil {
 		fmt.Fprintf(out, "%s solve error %v\n", b.id, err)
 		return
+	}
+	if stall {
+		last, still := int64(-1), 0
+		for still < 6 {
+			time.Sleep(25 * time.Millisecond)
+			if p := progress.Load(); p == last {
+				still++
+			} else {
+				last, still = p, 0
+			}
+		}
 	}
 	var sent []string
 	for si := range ch {
@@ -214,11 +232,11 @@ func runSloop(b block) {
 
 type noopOperator struct{}
 
-func (o *noopOperator) CanResultInImprovement() bool                               { return true }
+func (o *noopOperator) CanResultInImprovement() bool                              { return true }
 func (o *noopOperator) Execute(context.Context, nextroute.SolveInformation) error { return nil }
-func (o *noopOperator) Probability() float64                                       { return 1.0 }
-func (o *noopOperator) SetProbability(float64) error                               { return nil }
-func (o *noopOperator) Parameters() nextroute.SolveParameters                      { return nextroute.SolveParameters{} }
+func (o *noopOperator) Probability() float64                                      { return 1.0 }
+func (o *noopOperator) SetProbability(float64) error                              { return nil }
+func (o *noopOperator) Parameters() nextroute.SolveParameters                     { return nextroute.SolveParameters{} }
 
 func runPloop(b block) {
 	defer func() {
